@@ -273,6 +273,8 @@ func runC11(tier string) int {
 		}
 	}
 	run.Set("go_empty_package_prefix_compilations", nBare)
+	// include-graph shape pool (graph.go): deep layered diamond includes vs chains
+	graphDone := c.includeGraphShapes(len(units))
 	run.Set("compilation_keys(program,target,options)", len(c.comps))
 
 	tCompile := time.Now()
@@ -293,7 +295,8 @@ func runC11(tier string) int {
 	close(uch)
 	wg.Wait()
 
-	run.Set("phase_s:compilations", time.Since(tCompile).Seconds())
+	graphDone()
+	run.Set("phase_s:compilations(incl. include-graph shapes)", time.Since(tCompile).Seconds())
 
 	// the negative side runs while the language oracles judge the emitted files
 	var owg sync.WaitGroup
